@@ -54,7 +54,16 @@ pub fn one<S: Src, const P: u8, const L: usize, const NT: usize, const NV: usize
     let resp0 = ctx.get_response().get_eid();
     let sel0 = ctx.verif_get_vendor_id_selector();
     let mut out = prior;
-    let r = ctx.process_packet(&b, &mut out);
+    // C12 / C15: the response buffer may be shorter than 64 bytes, down to an exact fit (a buffer
+    // that is too short makes the library panic, which only cuts the path on these harnesses)
+    let cap = if P == C12 || P == C15 {
+        let c = s.usize();
+        s.assume(c >= 13 && c <= OUT);
+        c
+    } else {
+        OUT
+    };
+    let r = ctx.process_packet(&b, &mut out[..cap]);
     reached!(s, "proc: process_packet returned");
     let req_eid = ctx.get_request().get_eid();
     let resp_eid = ctx.get_response().get_eid();
@@ -177,6 +186,7 @@ pub fn one<S: Src, const P: u8, const L: usize, const NT: usize, const NV: usize
                     };
                     chk!(s, P, C12, pec, "response: last byte is the PEC of the response");
                     covopt!(s, P, C12, cmd == 1, "proc: Set Endpoint ID answered");
+                    covopt!(s, P, C12, cap == n, "proc: response written into an exact-fit buffer");
                     covopt!(s, P, C12, cmd == 3 && n == 29, "proc: Get Endpoint UUID answered");
                     covopt!(s, P, C12, cmd == 6, "proc: Get Vendor Defined Message Support answered");
                     covopt!(s, P, C12, cmd == 5 && (b[9] & 0x1F) == 0, "proc: Get Message Type Support answered");
@@ -244,6 +254,7 @@ pub fn one<S: Src, const P: u8, const L: usize, const NT: usize, const NV: usize
             }
             chk!(s, P, C15, ok, "Get Message Type Support: count and the configured list, in order");
             covopt!(s, P, C15, cfg.nt == NT, "proc: full-length type list reported");
+            covopt!(s, P, C15, cap == 14 + cfg.nt, "proc: type list written into an exact-fit response buffer");
         }
         if acc_req && cmd == 3 {
             let u = cfg.expect_uuid();
